@@ -11,7 +11,7 @@ REPO = os.environ.get("VERIF_REPO", "/repo")
 COQ = os.path.join(VERIF, "coq")
 CASES = os.path.join(COQ, "cases")
 REPLAYS = os.path.join(VERIF, "replays")
-EVIDENCE = os.path.join(VERIF, "evidence")
+EVIDENCE = os.environ.get("VERIF_EVIDENCE_DIR") or os.path.join(VERIF, "evidence")
 PY = "/venv/bin/python"
 NPROC = min(16, os.cpu_count() or 4)
 
